@@ -19,6 +19,7 @@ WORK = os.path.join(ROOT, "work")
 NCPU = os.cpu_count() or 4
 
 GOENV = {
+    "GOMEMLIMIT": "4GiB",
     "GOFLAGS": "-mod=mod",
     "GOPROXY": "off",
     "GOSUMDB": "off",
@@ -176,8 +177,8 @@ def tlc(ctx, module, cfg, *, workers="auto", timeout=900, simulate=None, depth=N
     args += [module + ".tla"]
     env = dict(os.environ)
     jopts = ["-Xss64m"]
-    if heap:
-        jopts.append("-Xmx%s" % heap)
+    # the JVM default is 25% of RAM per process; several checks may run at the same time
+    jopts.append("-Xmx%s" % (heap or os.environ.get("VERIF_TLC_HEAP", "8g")))
     if depth_first:
         jopts.append("-Dtlc2.tool.queue.IStateQueue=StateDeque")
     env["JAVA_TOOL_OPTIONS"] = (env.get("JAVA_TOOL_OPTIONS", "") + " " + " ".join(jopts)).strip()
@@ -189,7 +190,8 @@ def tlc(ctx, module, cfg, *, workers="auto", timeout=900, simulate=None, depth=N
         except Exception as e:
             raise Inconclusive("tlc could not be started: %r" % e)
         # a JVM that was killed from outside (signal) leaves neither a verdict nor an error message: run it once more
-        if attempt == 1 and p.returncode not in (0, 124, 137) and "Error:" not in p.stdout \
+        killed_early = p.returncode == 137 and (time.time() - t0) < 0.8 * timeout
+        if attempt == 1 and (p.returncode not in (0, 124, 137) or killed_early) and "Error:" not in p.stdout \
                 and "Model checking completed" not in p.stdout and "error" not in p.stdout.lower():
             log("tlc ended without a verdict (rc=%d); retrying once" % p.returncode)
             shutil.rmtree(os.path.join(d, "meta"), ignore_errors=True)
@@ -292,6 +294,33 @@ def _parse_trace(lines):
     return states
 
 
+def result_tuple(r):
+    """The <<"RESULT", ...>> tuple a trace spec prints at the end, as ONE line (TLC wraps long tuples over several lines)."""
+    out = r.out
+    ms = list(re.finditer(r'<<\s*"RESULT"', out))
+    if not ms:
+        return None
+    i = ms[-1].start()
+    depth = 0
+    j = i
+    while j < len(out) - 1:
+        two = out[j:j + 2]
+        if two == "<<":
+            depth += 1
+            j += 2
+            continue
+        if two == ">>":
+            depth -= 1
+            j += 2
+            if depth == 0:
+                break
+            continue
+        j += 1
+    txt = re.sub(r"\s+", " ", out[i:j])
+    txt = txt.replace("<< ", "<<").replace(" >>", ">>").replace("<<  ", "<<")
+    return txt
+
+
 def action_name(state):
     """'Next line 12, col 3 ... of module M' -> 'Next';  'Initial predicate' -> 'Init'"""
     a = state.get("_action", "")
@@ -307,7 +336,7 @@ def validate_traces(ctx, module, cfg, trace_file, *, timeout=600, trace_name="tr
     files = {trace_name: data}
     files.update(extra_files or {})
     r = tlc(ctx, module, cfg, workers=1, timeout=timeout, extra_files=files, deadlock=False,
-            depth_first=depth_first)
+            depth_first=depth_first, heap="4g")
     return r.ok, r
 
 
